@@ -4,7 +4,7 @@ use crate::checks_e1::{monitor_for, FULL};
 use crate::explore::{scenario, Explorer, Finding, FrameSel, Opts, RunCtx};
 use crate::lexer;
 use crate::report::Report;
-use crate::run::{run_bytes, run_seed, Cfg};
+use crate::run::{run_bytes, run_seed, Cfg, Mk};
 use crate::units::short_strings;
 use rayon::prelude::*;
 use serde_json::json;
@@ -214,7 +214,7 @@ pub fn c09(tier: &str) -> i32 {
             };
             for (d, m, b) in boxes {
                 // gate draws come from fuzzer bytes: besides "fires" (0.0) and "declines" (2.0) also NaN and a negative value
-                let opts = Opts { max_depth: d, max_memo: m, dev_budget: b, frame: FrameSel::Both, ref_in_key: false, gate_alphabet: if b <= 1 { vec![2.0, f64::NAN, -1.0] } else { vec![] }, ..Opts::default() };
+                let opts = Opts { max_depth: d, max_memo: m, dev_budget: b, frame: FrameSel::Both, ref_in_key: false, gate_alphabet: if b == 1 || (!quick && b == 0) { vec![2.0, f64::NAN, -1.0] } else if b == 0 { vec![2.0] } else { vec![] }, ..Opts::default() };
                 let t0 = Instant::now();
                 let ex = Explorer { base_cfg: cfg.clone(), opts, monitor: &guard, xval_full: Default::default(), choice_discovery: Default::default() };
                 let out = ex.explore(None);
@@ -228,6 +228,58 @@ pub fn c09(tier: &str) -> i32 {
                 }
             }
         }
+    }
+
+    // (a3) mutator lists are multisets: `with_mutators` (and --mutators a b a) accept the same mutator more than once and in
+    //      any order, and each instance post-processes what the previous one left. Every ordered pair (including X,X) and
+    //      the full list twice, safe and unsafe, closure at depth 1 with one value deviation and both gate answers
+    {
+        let mut lists: Vec<(String, Vec<Mk>)> = vec![];
+        for a in Mk::ALL {
+            for b in Mk::ALL {
+                if quick && a != b && !(a == Mk::Typeconfusion || b == Mk::Typeconfusion) {
+                    continue;
+                }
+                lists.push((format!("{}+{}", a.name(), b.name()), vec![a, b]));
+            }
+        }
+        let mut twice = FULL.to_vec();
+        twice.extend_from_slice(&FULL);
+        lists.push(("full+full".into(), twice));
+        let mut n_lists = 0u64;
+        let t0 = Instant::now();
+        for p in (0..=5u8).rev() {
+            if quick && !matches!(p, 5 | 2 | 0) {
+                continue;
+            }
+            for (name, l) in &lists {
+                for uns in [true, false] {
+                    let cfg = Cfg::new(p).flags(true, true).muts(l, 0.5, uns);
+                    let boxes: Vec<(usize, usize, usize)> = if quick { vec![(1, 1, 1)] } else { vec![(1, 1, 1), (2, 1, 0)] };
+                    for (d, m, b) in boxes {
+                        let opts = Opts { max_depth: d, max_memo: m, dev_budget: b, frame: FrameSel::Both, ref_in_key: false, gate_alphabet: vec![2.0], ..Opts::default() };
+                        let ex = Explorer { base_cfg: cfg.clone(), opts, monitor: &guard, xval_full: Default::default(), choice_discovery: Default::default() };
+                        let out = ex.explore(None);
+                        let lab = format!("P{p}/{name}/{}/D{d}M{m}b{b}", if uns { "unsafe" } else { "safe" });
+                        // stats are summed: one evidence row for the whole family keeps the file readable
+                        rep.states += out.stats.states;
+                        rep.transitions += out.stats.transitions;
+                        for e in &out.stats.machinery_errors {
+                            rep.machinery.push(format!("{lab}: {e}"));
+                        }
+                        for fd in &out.found {
+                            rep.finding(fd);
+                        }
+                        n_lists += 1;
+                    }
+                }
+            }
+        }
+        if verbose {
+            eprintln!("mutator multisets: {n_lists} explorations {:.2}s", t0.elapsed().as_secs_f64());
+        }
+        rep.set("mutator_multiset_explorations", json!({"lists": lists.iter().map(|x| x.0.clone()).collect::<Vec<_>>(), "explorations": n_lists,
+            "note": "ordered pairs of mutators (X,X included) and the full list twice, protocols 0..5 (quick: 5, 2, 0 and only the pairs with a repeated mutator or with typeconfusion), safe and unsafe, depth-1 closure (thorough: also depth 2) with one value deviation and both gate answers"}));
     }
 
     // (b) every byte string of length <= 2 through the public API, several ranges and configurations
@@ -286,6 +338,15 @@ pub fn c09(tier: &str) -> i32 {
         for rate in [0.1, 0.5, 0.999] {
             for uns in [false, true] {
                 knob_cfgs.push(Cfg::new(p).range(20, 60).flags(true, true).muts(&FULL, rate, uns));
+            }
+        }
+        // the same mutator more than once
+        let mut twice = FULL.to_vec();
+        twice.extend_from_slice(&FULL);
+        for rate in [0.5, 1.0] {
+            for uns in [false, true] {
+                knob_cfgs.push(Cfg::new(p).range(20, 60).flags(true, true).muts(&twice, rate, uns));
+                knob_cfgs.push(Cfg::new(p).range(20, 60).flags(true, true).muts(&[Mk::Typeconfusion, Mk::Typeconfusion, Mk::Memoindex, Mk::Memoindex], rate, uns));
             }
         }
         knob_cfgs.push(Cfg::new(p).range(9, 2));
